@@ -147,7 +147,7 @@ pub fn run(ctx: &mut Ctx) {
     for (n, ok) in r3::selftest() {
         ctx.selftest(&n, ok);
     }
-    ctx.require(&["annex_kat", "len_sweep", "fixed_k_exact", "free_k", "roundtrip", "ref_made_decrypts", "openssl_made_decrypts", "all_zero_msg", "leading_zero_msg", "long_msg", "kdf_counter_beyond_16_bits", "kdf", "kdf_klen_mod32=00", "c1c2c3_uncompressed", "c1c2c3_compressed", "c1c3c2_uncompressed", "c1c3c2_compressed", "klen_mod32=00", "key_from_constructor", "key_from_gen_keypair", "key_with_jacobian_public_point"]);
+    ctx.require(&["annex_kat", "len_sweep", "fixed_k_exact", "free_k", "roundtrip", "ref_made_decrypts", "openssl_made_decrypts", "all_zero_msg", "leading_zero_msg", "long_msg", "kdf_counter_beyond_16_bits", "kdf", "kdf_klen_mod32=00", "c1c2c3_uncompressed", "c1c2c3_compressed", "c1c3c2_uncompressed", "c1c3c2_compressed", "klen_mod32=00", "key_from_constructor", "key_from_gen_keypair", "key_with_jacobian_public_point", "crafted_recipient_key", "crafted_c1_decrypts"]);
     let c = r2::curve();
 
     // --- Annex example
@@ -158,6 +158,67 @@ pub fn run(ctx: &mut Ctx) {
             enc_case(ctx, &d, b"encryption standard", Some(&k), lay, "annex_kat");
         }
         ctx.sample(json!({"annex": {"msg": "encryption standard", "C1.x": "04EBFC71..9A73", "C3": "59983C18..8766", "C2": "21886CA9..1EFA"}}));
+    }
+
+    // --- points crafted so that an addition of the on-curve test lands on a carry / reduction boundary (see
+    // sm2x::crafted_points): as the RECIPIENT's public key (exact ciphertext for an injected k) and as the C1 of a
+    // reference-made ciphertext (must decrypt)
+    {
+        let mut pc = ctx.prng("crafted_pts");
+        let reps = ctx.n(1, 8);
+        for _ in 0..reps {
+            let sub = pc.next();
+            let mut q = Prng::new(sub, "cp");
+            for (name, pt) in crafted_points_sharded(&mut q, 1, ctx.shard as u64, ctx.nshards as u64) {
+                let lay = LAYOUTS[q.below(4) as usize];
+                let mlen = 1 + q.below(80) as usize;
+                let msg = q.bytes(mlen);
+                let k = rand_scalar(&mut q, &c.n);
+                let w = json!({"class": format!("crafted:{}", name), "point": hex::encode(r2::encode(&pt, false)), "msg": hx(&msg), "k": hex::encode(r2::b32(&k)), "layout": layout_name(lay.0, lay.1)});
+                ctx.eval();
+                ctx.class("crafted_recipient_key");
+                ctx.distinct("crafted_pk", &[&r2::b32(&pt.0), &msg]);
+                match lib_pk(&pt) {
+                    None => ctx.violation("Sm2PublicKey::new:crafted-valid-point:not-ok", w.clone()),
+                    Some(lpk) => {
+                        rng_prepare(&[&k]);
+                        let o = guard(|| lpk.encrypt(&msg, lay.1, model(lay.0)));
+                        let seen = rng_seen();
+                        match (o, r2::encrypt(&pt, &msg, &k, lay.0, lay.1)) {
+                            (Outcome::Ret(Ok(ct)), Some(e)) if seen.accepted.last() == Some(&k) => {
+                                if ct != e {
+                                    ctx.violation("encrypt:crafted_recipient_key:ciphertext-differs-from-standard", json!({"case": w, "expected": hx(&e), "actual": hx(&ct)}));
+                                }
+                            }
+                            (Outcome::Ret(Ok(_)), _) => ctx.class("ref_retry_condition"),
+                            (o, _) => ctx.violation(&format!("encrypt:crafted_recipient_key:{}", oc(&o)), w.clone()),
+                        }
+                    }
+                }
+                // as C1 of a ciphertext for a known private key
+                let d = rand_scalar(&mut q, &(&c.n - 1u32));
+                if let Some((c2, c3)) = r2::craft_for_point(&d, &pt, &msg) {
+                    if c2 != msg {
+                        let mut ct = r2::encode(&pt, lay.1);
+                        match lay.0 {
+                            Order::C1C2C3 => {
+                                ct.extend_from_slice(&c2);
+                                ct.extend_from_slice(&c3);
+                            }
+                            Order::C1C3C2 => {
+                                ct.extend_from_slice(&c3);
+                                ct.extend_from_slice(&c2);
+                            }
+                        }
+                        if r2::decrypt(&d, &ct, lay.0, lay.1).as_deref() == Some(&msg[..]) {
+                            expect_decrypt(ctx, &d, &ct, &msg, lay, "crafted_c1_decrypts");
+                        } else {
+                            ctx.violation("harness:crafted-c1-ciphertext-rejected-by-reference", w.clone());
+                        }
+                    }
+                }
+            }
+        }
     }
 
     // --- every message length 1..=300, rotating layouts; fixed and free k
